@@ -61,7 +61,7 @@ def run(c):
     exe = lean_exe("drv_c12")
     ncases = 4000 if c.thorough else 400
     c.cov["rule"] = ("random particle sets (N 1..20, a tenth N 50..2000; N_active 1..N; 5 mass families incl. zero masses and "
-                     "ratios to 1e-12; offsets up to 10x the scale); every exported reb_particles_transform_* routine is run and each "
+                     "ratios to 1e-12; offsets up to 10x the scale); every exported reb_particles_transform_* routine and the in-place DH maps of MERCURIUS and TRACE are run and each "
                      "component it writes is compared bitwise with the Lean Float model; distinct_nontrivial = distinct (routine, N, N_active, mass family) "
                      "with N_active>=2")
     c.cov["trusted_base"] = ["Lean 4.33 kernel", "Mathlib field_simp/ring (kernel-checked)",
@@ -237,6 +237,44 @@ def run(c):
             for k in cs:
                 add("baryInv", na, msb, comps[k], [o2[0].m] + [getattr(o2[i], k) for i in range(n)], (name, k, n, na, case))
             c.count((name, n, na, case % 5), nontrivial=na >= 2)
+        # ------------------------------------------------ in-place DH maps of MERCURIUS / TRACE
+        if n <= 40:
+            for integ in ("mercurius", "trace"):
+                tpt = 1 if rng.chance(0.25) else 0
+                sim = rebound.Simulation()
+                for i in range(n):
+                    sim.add(m=ms[i], x=comps["x"][i], y=comps["y"][i], z=comps["z"][i],
+                            vx=comps["vx"][i], vy=comps["vy"][i], vz=comps["vz"][i])
+                sim.integrator = integ
+                sim.N_active = na if not (na == n and rng.chance(0.5)) else -1
+                sim.testparticle_type = tpt
+                nae = n if (tpt == 1 or sim.N_active == -1) else na
+                ri = sim.ri_mercurius if integ == "mercurius" else sim.ri_trace
+                getattr(clib, "reb_integrator_%s_inertial_to_dh" % integ)(ctypes.byref(sim))
+                ps = sim.particles
+                for k in COMPS_POS:
+                    add("hybFwdPos", nae, ms, comps[k], [getattr(ri._com_pos, k)] + [getattr(ps[i], k) for i in range(n)], (integ + "_inertial_to_dh", k, n, nae, case))
+                for k, kk in zip(COMPS_VEL, COMPS_POS):
+                    add("hybFwdVel", nae, ms, comps[k], [getattr(ri._com_vel, kk)] + [getattr(ps[i], k) for i in range(n)], (integ + "_inertial_to_dh", k, n, nae, case))
+                for k, kk in zip(COMPS_POS + COMPS_VEL, COMPS_POS + COMPS_POS):
+                    com, M = fsum_com(ms, comps[k], nae)
+                    got_com = getattr(ri._com_pos if k in COMPS_POS else ri._com_vel, kk)
+                    if not relerr(got_com, com) <= 1e-9:
+                        searchfail.append((integ + " stored centre of mass is wrong", dict(n=n, na=nae, ms=ms, comp=k, xs=comps[k], got=got_com, want=com)))
+                dh = {k: [getattr(ps[i], k) for i in range(n)] for k in COMPS_POS + COMPS_VEL}
+                cpv = {k: getattr(ri._com_pos if k in COMPS_POS else ri._com_vel, kk) for k, kk in zip(COMPS_POS + COMPS_VEL, COMPS_POS + COMPS_POS)}
+                getattr(clib, "reb_integrator_%s_dh_to_inertial" % integ)(ctypes.byref(sim))
+                ps = sim.particles
+                cond = max(1.0, math.fsum(abs(m) for m in ms[:nae]) / abs(ms[0]))
+                for k in COMPS_POS + COMPS_VEL:
+                    op = "hybInvPos" if k in COMPS_POS else "hybInvVel"
+                    add(op, nae, ms, [cpv[k]] + dh[k][1:], [cpv[k]] + [getattr(ps[i], k) for i in range(n)], (integ + "_dh_to_inertial", k, n, nae, case))
+                    e = max(relerr(getattr(ps[i], k), comps[k][i]) for i in range(n))
+                    worst[integ[:4] + "_rt"] = max(worst.get(integ[:4] + "_rt", 0), e / cond)
+                    if not e <= 1e-9 * cond:
+                        searchfail.append((integ + " inertial_to_dh/dh_to_inertial round trip does not return the input", dict(n=n, na=nae, tpt=tpt, ms=ms, comp=k, xs=comps[k], err=e)))
+                c.count((integ + "_dh", n, nae, tpt, case % 5), nontrivial=nae >= 2)
+                del sim
         if case < 2:
             c.sample({"N": n, "N_active": na, "masses": ms[:6], "x": comps["x"][:6], "line": lines[-1][:200]})
 
